@@ -46,7 +46,8 @@ def summary(rec):
         s["live"] = live(rec.post)
         s["dims"] = impl_dims(rec.post)
         s["snap"] = rec.post
-        s["valid"] = not wellformed.c07(rec.post)
+        # only what makes the denotation meaningless stops a twin comparison (a stale member level tag does not)
+        s["valid"] = not [m for m, _ in wellformed.c07(rec.post) if m != "member-level"]
     except Exception:  # noqa: BLE001
         s["live"] = None
     try:
@@ -146,6 +147,8 @@ def gen_program(rng, profile, tier, opts, contraction, nsteps, op_reuse=False):
             if st["op"]["fam"] == "comp" and st["op"]["type"] == "Expression" and "X" not in st["op"]["state_types"]:
                 fits = [(j, o) for j, o in enumerate(ops_seen) if o["fam"] == "comp" and o["type"] == "Expression"
                         and o["state_types"] == st["op"]["state_types"]]
+            if st["op"]["fam"] == "custom":
+                fits = [(j, o) for j, o in enumerate(ops_seen) if o["fam"] == "custom" and o.get("adaptive")]
             if fits and rng.random() < 0.6:
                 j, o = fits[int(rng.integers(0, len(fits)))]
                 st["op"] = o
@@ -211,7 +214,7 @@ def c08_twin(a, col, budget):
         prog += 1
         nsteps = int(rng.integers(4, 11))
         try:
-            decl, steps, A = gen_program(rng, "levels", a.tier, {"approx_ops": False, "near_basis": True, "weights": {"config": 0}}, True, nsteps)
+            decl, steps, A = gen_program(rng, "levels", a.tier, {"approx_ops": False, "near_basis": True, "lifecycle": 0.2, "weights": {"config": 0}}, True, nsteps)
         except Exception as e:  # noqa: BLE001
             col.incon["harness-gen-error"] = col.incon.get("harness-gen-error", 0) + 1
             col.extra.setdefault("harness_errors", []).append(f"{type(e).__name__}: {e}"[:200])
@@ -302,6 +305,20 @@ def c15_driver(a, col):
                 pass
 
         Cc, _ = exec_twin(decl, steps, lambda i: contraction, lead=A, reuse_ops=True, pre_step=unrelated)
+        # what each application did, against the operator its own type and parameters define (the twins below would
+        # agree with each other if, say, a cache shared between objects handed both the same wrong matrix)
+        from pwv import oracles as O
+        for rec in runA.records:
+            if rec.step["k"] != "apply":
+                continue
+            for pr in ("C01", "C03"):
+                for v in O.judge_apply(rec, pr):
+                    v = dict(v)
+                    v["prop"] = "C15"
+                    if v["status"] == "violated":
+                        v["mode"] = "effect-" + v["mode"]
+                    v["cell"] = ("effect", rec.step["op"]["fam"] + "." + rec.step["op"]["type"], "reused" if rec.step.get("op_id") is not None else "fresh")
+                    col.add([v], replay)
         compare_runs("C15", A, B, steps, "reused-vs-fresh", col, replay, cellfn, check_draws=False)
         compare_runs("C15", A, Cc, steps, "plain-vs-interleaved", col, replay, cellfn, check_draws=False)
         # arrays inside expressions and arrays handed out by the context are the user's too
@@ -417,12 +434,12 @@ def c18_twin(a, col, budget=None):
     pidx = 18
     t0 = time.time()
     prog = 0
-    w = {"config": 0, "measure": 5, "combine": 4, "reorder": 2, "trace_out": 3, "apply1": 2, "applyc": 2, "kraus": 1, "povm": 1.5,
+    w = {"config": 0, "measure": 5, "combine": 4, "reorder": 2, "trace_out": 3, "apply1": 2, "applyc": 3, "kraus": 1, "povm": 1.5,
          "resize": 0, "composite": 1.5, "contract": 0.3, "expand": 0.8}
     while time.time() - t0 < budget:
         rng = np.random.default_rng([a.seed, pidx, a.shard, prog, 3])
         prog += 1
-        gen = Gen(rng, "generic", a.tier, {"approx_ops": False, "weights": w, "fock_types": ["PhaseShift", "Identity", "Creation"]})
+        gen = Gen(rng, "generic", a.tier, {"approx_ops": False, "weights": w, "fock_types": ["PhaseShift", "Identity", "Creation"], "same_kind_operands": 0.5, "same_kind_prefix": 0.25})
         mode, decl, declB = collide_pair(gen, rng)
         if mode == "labels":
             # Fock operations choose dimensions from the occupied levels, i.e. from the label values: with
@@ -454,6 +471,10 @@ def c18_twin(a, col, budget=None):
             rec = runner.step(st)
             B.append(summary(rec))
             if B[-1]["live"] is None:
+                break
+            if mode == "labels" and st["k"] == "apply" and st["op"]["fam"] == "comp" and "F" in st["op"].get("state_types", []):
+                # an operation on modes picks their dimensions from the occupied levels, i.e. from the label values:
+                # from here on the twins legitimately differ in dimensions, so the program ends
                 break
         if not steps:
             continue
